@@ -155,11 +155,13 @@ CLAIMED = {
         ref="DESIGN.md §5 C18"),
     "C19": dict(
         text="Coq theorems C19_start_accepted_iff_free, C19_refused_start_is_noop, C19_accepted_start_is_fresh, C19_command_refused / C19_request_refused (no live authenticated session: connection error, nothing written, nothing changed), "
-             "C19_endings_clear / C19_forced_disconnect_clears (stop hook, failed connect phase, returned disconnect() clear the client's reference in the same callback) about Model/Client.v (APIClient bookkeeping over a sequence of Model/Conn.v connections). "
-             "PARTIAL: the run-level corollary 'nothing alive and nothing in progress => the client holds no connection' is evaluated on the implementation at every quiescent point, by start/command probes at every stage and after the story, and by trace validation of the composite model - not yet proved about runs.",
-        note=CONN_NOTE + "Stories use the client sequentially (a new attempt is not started while a coroutine of the previous connection object has not returned); finish_connection is only called in state SOCKET_OPENED. Behaviour outside that (DESIGN.md F12/F13) is recorded, not modelled.",
-        tech="machine-checked proof in Coq (case analysis of the client steps over the Conn model) + client-level trace validation over several consecutive sessions; partial (never-wedges is tested at run level, not proved)",
-        ref="DESIGN.md §5 C19"),
+             "C19_endings_clear / C19_forced_disconnect_clears (stop hook, failed connect phase, returned disconnect() clear the client's reference in the same callback), and - for EVERY sequence of client calls and connection events from a fresh client - "
+             "C19_never_wedged (a closed connection with neither connect phase in flight is not referred to any more), C19_then_start_is_accepted, C19_invariant_all_runs, about Model/Client.v (APIClient bookkeeping over a sequence of Model/Conn.v connections). "
+             "The run-level theorems rest on an invariant preserved by every label of the connection machine (Proofs/ConnWedge.v: a connection that never was CONNECTED only closes while one of its connect coroutines is in flight, through a client call, or with the matching observation), lifted to the client in Proofs/ClientProofs.v. "
+             "Tied by trace validation of the composite model against the real APIClient over several consecutive sessions (with and without a user stop callback), the property predicate evaluated on the implementation after every callback and at every quiescent point, start / command probes at every stage and after the story, and a restart-from-the-stop-callback probe.",
+        note=CONN_NOTE + "Stories use the client the way its API intends (finish_connection once, after start_connection; a new attempt is not started while a coroutine of the previous connection object has not returned, except for the final probe). Behaviour outside that (DESIGN.md F12/F13) is recorded, not modelled.",
+        tech="machine-checked proof in Coq (invariant over all labels of the connection machine lifted to client runs by induction) + client-level trace validation over several consecutive sessions",
+        ref="DESIGN.md §5 C19, §9.1"),
     "C20": dict(
         text="Coq theorems about Model/Resolver.v (mirror of host_resolver.async_resolve_host and zeroconf.ZeroconfManager; ip_address / mDNS / getaddrinfo are oracles, util.py string predicates modelled on strings): C20_literal_verbatim (no lookup, own address), C20_local_name_mdns_first (mDNS first with the name up to the first dot, IPv6 before IPv4, OS resolver iff mDNS gave nothing or failed), "
              "C20_other_name_os_only, C20_in_order_never_empty / C20_never_returns_empty / C20_calls_in_order (for all host lists and oracle outcomes), C20_never_closes_application_instance (for ALL operation sequences on a manager), C20_lookup_closes_what_it_created, C20_lookup_keeps_existing, C20_stop_closes_library_instance, C20_stop_keeps_application_instance. "
